@@ -2,7 +2,7 @@
    Theorems only.  Model: Model/Ty.v (subck = subclasscheck with fuel).  Spec: Spec/Denot.v. *)
 From Coq Require Import ZArith List Bool Arith.
 Import ListNotations.
-From OvldV Require Import Model.Order Model.Ty Model.TyDom Model.Codec Spec.Denot Proofs.TyEq Proofs.TyMono Proofs.TySub Proofs.TyTotal.
+From OvldV Require Import Model.Order Model.Ty Model.TyDom Model.Codec Spec.Denot Proofs.TyEq Proofs.TyMono Proofs.TySub Proofs.TyTotal Proofs.TyMeaning.
 
 Definition Refl (sub : nat -> nat -> bool) := forall c, sub c c = true.
 Definition Antisym (sub : nat -> nat -> bool) := forall c d, sub c d = true -> sub d c = true -> c = d.
@@ -45,6 +45,31 @@ Theorem C13_alias_under_class : forall sub hasm chk fresh n o a d,
   subck sub hasm chk fresh (S n) (Gen o a) (Cls d) = Some (sub o d).
 Proof. exact subck_alias_class. Qed.
 Print Assumptions C13_alias_under_class.
+
+(* at the public entry point (fuel chosen by the model, never exhausted): the answer IS the documented meaning *)
+Theorem C13_entry_is_meaning : forall sub hasm chk fresh, Refl sub ->
+  forall c T, subclasscheck sub hasm chk fresh (Cls c) T = Some (denot sub hasm chk T c).
+Proof. exact subclasscheck_denot. Qed.
+Print Assumptions C13_entry_is_meaning.
+
+(* a class is under a union exactly when it is under some member; under an intersection exactly when under all;
+   under a value-dependent type exactly when under its bound -- members of any nesting depth *)
+Theorem C13_union_some_member : forall sub hasm chk fresh, Refl sub -> forall c ts,
+  subclasscheck sub hasm chk fresh (Cls c) (Uni ts) = Some true <->
+  exists t, In t ts /\ subclasscheck sub hasm chk fresh (Cls c) t = Some true.
+Proof. exact subclasscheck_union. Qed.
+Print Assumptions C13_union_some_member.
+
+Theorem C13_inter_all_members : forall sub hasm chk fresh, Refl sub -> forall c ts,
+  subclasscheck sub hasm chk fresh (Cls c) (Int ts) = Some true <->
+  forall t, In t ts -> subclasscheck sub hasm chk fresh (Cls c) t = Some true.
+Proof. exact subclasscheck_inter. Qed.
+Print Assumptions C13_inter_all_members.
+
+Theorem C13_dependent_is_bound : forall sub hasm chk fresh, Refl sub -> forall c T, is_dep T = true ->
+  subclasscheck sub hasm chk fresh (Cls c) T = subclasscheck sub hasm chk fresh (Cls c) (dep_bound T).
+Proof. exact subclasscheck_dep_bound. Qed.
+Print Assumptions C13_dependent_is_bound.
 
 (* FULL STATEMENT (false of the faithful model: C13_trans_refuted_...): the subtype test is transitive.
    PROVED: for class operands on the left and in the middle and a right operand whose meaning is closed under
